@@ -83,6 +83,24 @@ namespace awkward {
           }
         }
       }
+      // field projections are what the Forms predicted by getitem_field(s) describe; a generic getitem would
+      // additionally range-slice the result (which, e.g., turns a BitMaskedArray into a ByteMaskedArray)
+      else if (SliceField* raw = dynamic_cast<SliceField*>(head.get())) {
+        if (VirtualArray* a = dynamic_cast<VirtualArray*>(content_.get())) {
+          return a->array().get()->getitem_field(raw->key());
+        }
+        else {
+          return content_.get()->getitem_field(raw->key());
+        }
+      }
+      else if (SliceFields* raw = dynamic_cast<SliceFields*>(head.get())) {
+        if (VirtualArray* a = dynamic_cast<VirtualArray*>(content_.get())) {
+          return a->array().get()->getitem_fields(raw->keys());
+        }
+        else {
+          return content_.get()->getitem_fields(raw->keys());
+        }
+      }
     }
     if (VirtualArray* a = dynamic_cast<VirtualArray*>(content_.get())) {
       return a->array().get()->getitem(slice_);
